@@ -112,6 +112,8 @@ Inductive cmd :=
 | CCommit                            (* jj commit -m <text> *)
 | CBookmarkSet (b : N) (c : nat)     (* jj bookmark set b -r c --allow-backwards *)
 | CTagSet (t : N) (c : nat)          (* jj tag set t -r c --allow-move *)
+| CRestore (from into : nat)         (* jj restore --from --into *)
+| CMetaedit (ts : list nat)          (* jj metaedit --update-author-timestamp ts *)
 | CSnapshot                          (* a command that only snapshots a modified working copy *)
 | CWorkspaceAdd                      (* jj workspace add *)
 | CObserve.                          (* no command: re-observation after a config edit *)
@@ -132,6 +134,8 @@ Definition check_targets (g : graph) (c : cmd) : list nat :=
   | CSquash f i => [f; i]
   | CEdit c => [c]
   | CNewBefore x => [x]
+  | CRestore _ i => [i]
+  | CMetaedit ts => ts
   | CNew _ | CCommit | CBookmarkSet _ _ | CTagSet _ _ | CSnapshot | CWorkspaceAdd | CObserve => []
   end.
 
@@ -167,6 +171,7 @@ Definition wc_abandoned (r : repo) (ws : N) (c : cmd) (w : nat) : bool :=
 Record event := mk_event {
   e_ws : N;                     (* invoking workspace *)
   e_cfg : hexpr;                (* immutable_heads() in effect *)
+  e_override : bool;            (* the command was given --ignore-immutable *)
   e_cmd : cmd;
   e_status : N;                 (* 0 = ok; 1 = refused "... is immutable"; 2 = other error *)
   e_nops : nat;                 (* operations added by the command *)
@@ -177,6 +182,11 @@ Record event := mk_event {
   e_imm_pre : list nat;         (* visible commits shown as immutable before the command *)
   e_vis_post : list nat;        (* visible commits after the command *)
 }.
+
+(** [resolve_immutable_expression] (l.1142-1164): with [--ignore-immutable] only the root
+    commit counts as immutable, in [check_rewritable], in the snapshot and in
+    [finish_transaction] alike. *)
+Definition eff_cfg (ev : event) : hexpr := if e_override ev then HNone else e_cfg ev.
 
 Definition pair_nat_eqb (p q : N * nat) : bool := N.eqb (fst p) (fst q) && Nat.eqb (snd p) (snd q).
 Definition view_eqb (a b : view) : bool :=
@@ -189,7 +199,7 @@ Definition is_fresh (g : graph) (c : nat) : bool := length g <=? c.
     skip commits that are already in place). *)
 Definition exact_kind (c : cmd) : bool :=
   match c with
-  | CDescribe _ | CAbandon _ | CCommit | CSnapshot | CNewBefore _ => true
+  | CDescribe _ | CAbandon _ | CCommit | CSnapshot | CNewBefore _ | CMetaedit _ => true
   | _ => false
   end.
 
@@ -206,7 +216,7 @@ Definition nominal_wc (c : cmd) (w : nat) (hidden : list nat) : option nat :=
 Definition accept_ok (r : repo) (ev : event) : bool :=
   let g := r_graph r in
   let v := r_view r in
-  let e := e_cfg ev in
+  let e := eff_cfg ev in
   let c := e_cmd ev in
   let g' := g ++ e_new ev in
   let v' := e_view ev in
@@ -216,7 +226,11 @@ Definition accept_ok (r : repo) (ev : event) : bool :=
   let rew := e_rewritten ev in
   let roots := rewrite_roots g wc c in
   let snap_child := match c, wc with CSnapshot, Some w => immb g v e w | _, _ => false end in
-  let allowed := fun x => visb g v x && descb g roots x in
+  (* [rebase_mutable_descendants] (l.2960-2978): the descendant rebase skips commits that are
+     immutable in the base repo, so below the roots only mutable commits are rewritten *)
+  let allowed := fun x => visb g v x && descb g roots x && (memn x roots || negb (immb g v e x)) in
+  let no_imm_desc :=
+    forallb (fun x => negb (descb g roots x && immb g v e x && negb (memn x roots))) pre in
   negb (refuses g v e c)
   && wf_from (e_new ev) (length g)
   (* rewritten commits were visible and descend from the checked roots *)
@@ -225,8 +239,9 @@ Definition accept_ok (r : repo) (ev : event) : bool :=
   && forallb (fun x => (negb snap_child && allowed x)
                        || match wc with Some w => Nat.eqb x w && wc_abandoned r (e_ws ev) c w
                           | None => false end) hidden
-  && subsetn rew hidden
-  && (if exact_kind c && negb snap_child && (0 <? e_nops ev)
+  (* a rewritten commit disappears unless an immutable descendant, left in place, keeps it *)
+  && (if no_imm_desc then subsetn rew hidden else true)
+  && (if exact_kind c && negb snap_child && (0 <? e_nops ev) && no_imm_desc
       then subsetn (filter allowed pre) hidden else true)
   && match wc with
      | Some w => if wc_abandoned r (e_ws ev) c w && (0 <? e_nops ev) then memn w hidden else true
@@ -278,7 +293,7 @@ Definition accept (r : repo) (ev : event) : option repo :=
   let pre_ok := seteqn (e_imm_pre ev) (filter (immb g v (e_cfg ev)) (vis_list g v)) in
   let step_ok :=
     if (e_status ev =? 0)%N then accept_ok r ev
-    else if (e_status ev =? 1)%N then refuses g v (e_cfg ev) (e_cmd ev) && unchanged r ev
+    else if (e_status ev =? 1)%N then refuses g v (eff_cfg ev) (e_cmd ev) && unchanged r ev
     else unchanged r ev in
   if pre_ok && step_ok
   then Some (mk_repo (g ++ e_new ev) (e_view ev) (r_disc r ++ e_newdisc ev))
@@ -293,14 +308,13 @@ Fixpoint run (r : repo) (evs : list event) : option repo :=
 (** * The property on the observations alone *)
 
 (** The known class [wc-commit-immutable-at-start]: the commit is the invoking workspace's
-    working-copy commit at command start, the command acts on it implicitly; for [jj commit]
-    also its descendants, which are rebased onto the rewritten commit. *)
+    working-copy commit at command start and the command acts on it implicitly. *)
 Definition implicit_wc_cmd (c : cmd) : bool :=
   match c with CCommit | CNew _ | CNewBefore _ | CEdit _ => true | _ => false end.
 Definition exempt (g : graph) (wc : option nat) (c : cmd) (imm_pre : list nat) (x : nat) : bool :=
   match wc with
   | Some w => implicit_wc_cmd c && memn w imm_pre
-              && (Nat.eqb x w || match c with CCommit => is_anc g w x | _ => false end)
+              && Nat.eqb x w
   | None => false
   end.
 
@@ -310,9 +324,10 @@ Definition viol (ev : event) (x : nat) : bool :=
   memn x (e_imm_pre ev) && (memn x (e_rewritten ev) || negb (memn x (e_vis_post ev))).
 
 Definition event_okb (strict : bool) (g : graph) (v : view) (ev : event) : bool :=
-  forallb (fun x => negb (viol ev x)
-                    || (negb strict && exempt g (wc_of v (e_ws ev)) (e_cmd ev) (e_imm_pre ev) x))
-          (e_imm_pre ev ++ e_rewritten ev)
+  (e_override ev
+   || forallb (fun x => negb (viol ev x)
+                        || (negb strict && exempt g (wc_of v (e_ws ev)) (e_cmd ev) (e_imm_pre ev) x))
+              (e_imm_pre ev ++ e_rewritten ev))
   && (if (e_status ev =? 0)%N then true
       else (e_nops ev =? 0)%nat && view_eqb v (e_view ev)).
 
